@@ -279,6 +279,88 @@ def run_faults(pid, tier, t0):
     log("[%s] %s: %d saves under fault (%d lossy, %d distinct), trace %s by TLC, %.0fs" % (pid, tier, len(faults), len(lossy), distinct, "accepted" if accepted else "REJECTED", time.time() - t0))
     return 1 if nviol else 0
 
+# ------------------------------------------------------------------ C16: damaged files
+def run_corrupt(pid, tier, t0):
+    import subprocess, glob
+    os.environ.update(SAN_ENV)
+    ez = report_replay.ez = vlib.build("plain")
+    bad = vlib.build("asan", harness="ezcorrupt")
+    work = vlib.scratch("c16")
+    # seed files: written by the real writer from built objects (+ the leading-zeros layout of one of them)
+    big = _userparam("BIG", "TEXT", -1, [vlib.codes("x" * 40)] * 8)
+    multi = _userparam("USR", "CUBE", 2, [1, -2, 3, -4, 5, -6], dim=(2, 1, 3), desc="three dimensional", lock=1)
+    fl = _userparam("USR", "FL", 4, [[0, 0, 128, 63], [0, 0, 128, 191]])
+    seed_ops = [build_ops(2, 1, 2, 2, [multi, fl]), build_ops(1, 0, 0, 1, [big]), build_ops(0, 2, 1, 3)]
+    if tier != "quick":
+        seed_ops += [build_ops(3, 3, 10, 4, [multi, fl, big]), build_ops(0, 0, 0, 0), build_ops(5, 0, 0, 2)]
+    seeds = []
+    for i, ops in enumerate(seed_ops):
+        evs, _ = vlib.run_ops(ez, [dict(o, post=0) for o in ops] + [{"op": "Save", "path": "s.c3d", "bytes": 1, "post": 0}])
+        seeds.append(evs[-1]["bytes"])
+    seeds.append([0, 0, 0] + seeds[0])                       # vendor layout: zero bytes before the header
+    sdir = os.path.join(work, "seeds"); os.makedirs(sdir)
+    with open(os.path.join(work, "seeds.ndjson"), "w") as f:
+        for k, b in enumerate(seeds, 1):
+            f.write(json.dumps({"bytes": b}) + "\n")
+            open(os.path.join(sdir, "seed.%d" % k), "wb").write(bytes(b))
+    # TLC enumerates the mutation descriptors
+    cfg = os.path.join(work, "corrupt.cfg")
+    vlib.write_cfg(cfg, "EzCorrupt.cfg", {"NSeeds": len(seeds), "Stride": 7 if tier == "quick" else 1})
+    rc, out = vlib.run_tlc("EzCorrupt.tla", cfg, workers=1, timeout=3000, env={"SEEDS": os.path.join(work, "seeds.ndjson")})
+    if vlib.tlc_errors(out): raise Infra("EzCorrupt enumeration failed: %s" % out[-2000:])
+    muts = [l for l in out.splitlines() if l.startswith('"{')]
+    if len(muts) < 100: raise Infra("EzCorrupt produced only %d descriptors:\n%s" % (len(muts), out[-1500:]))
+    nproc = vlib.NCPU
+    chunks = [muts[i::nproc] for i in range(nproc)]
+    procs = []
+    for i, ch in enumerate(chunks):
+        inp = os.path.join(work, "muts.%d" % i); open(inp, "w").write("\n".join(ch) + "\n")
+        procs.append(subprocess.Popen("%s --seeds %s --dir %s/w%d < %s > %s/ev.%d 2> %s/err.%d" % (bad, sdir, work, i, inp, work, i, work, i), shell=True))
+    for p in procs:
+        p.wait()
+        if p.returncode != 0: raise Infra("ezcorrupt exited with %s" % p.returncode)
+    events = []
+    for i in range(nproc):
+        events += [json.loads(l) for l in open("%s/ev.%d" % (work, i)) if l.strip()]
+    if len(events) != len(muts): raise Infra("%d events for %d mutations" % (len(events), len(muts)))
+    tpath = os.path.join(work, "loads.ndjson")
+    open(tpath, "w").write("\n".join(json.dumps({"e": e["e"], "out": e["out"]}) for e in events) + "\n")
+    accepted, at, summ, tout = vlib.validate_trace("EzCorruptTrace.tla", "EzCorruptTrace.cfg", tpath, timeout=3000)
+    nviol = 0
+    faults = [e for e in events if e["out"] not in ("loaded", "refused")]
+    if not accepted or faults:
+        stderr = ""
+        for i in range(nproc):
+            t = open("%s/err.%d" % (work, i), errors="replace").read()
+            if t.strip() and len(stderr) < 6000: stderr += t[:2500]
+        keys = {}
+        for e in faults:
+            m = e["m"]
+            where = "trunc" if m["kind"] == "trunc" else "set@%s" % ("hdr" if m["pos"][0] < 512 else "prm" if m["pos"][0] < 512 * (seeds[e["seed"] - 1][16 + (3 if e["seed"] == len(seeds) else 0)] - 1) else "data")
+            keys.setdefault("%s:%s" % (e["out"], where), e)
+        for key, e in list(keys.items())[:10]:
+            p = vlib.save_replay(pid, key, {"property": pid, "kind": "corrupt", "seed_bytes": seeds[e["seed"] - 1], "mutation": e["m"], "event": e})
+            log("VIOLATION property=%s replay=%s" % (pid, p))
+            log("  loading seed %d with mutation %s ended in '%s' (size %d, largest allocation %s, %s ms): not a step of EzCorrupt.Load" %
+                (e["seed"], json.dumps(e["m"]), e["out"], e["size"], e.get("maxalloc"), e.get("ms")))
+            nviol += 1
+        if stderr: log("  sanitizer output (first reports):\n" + "\n".join("    " + l for l in stderr.splitlines()[:30]))
+    outs = {}
+    for e in events: outs[e["out"]] = outs.get(e["out"], 0) + 1
+    cov = {"evaluations": len(events), "distinct_nontrivial": len({json.dumps([e["seed"], e["m"]], sort_keys=True) for e in events}),
+           "rule": "mutation descriptors are enumerated by TLC from EzCorrupt.tla over %d seed files (every truncation length, byte overwrites with {0,1,127,128,255,pseudo-random} "
+                   "at %s, every header word and every record field found by the decoder's parser with the boundary values of its width, pairs inside a record); only "
+                   "descriptors that change at least one byte are emitted; each is loaded in a forked ASan/UBSan child with an allocation budget of 64 x size + 16 MiB and a wall-clock limit" %
+                   (len(seeds), "every 7th offset and the first 48" if tier == "quick" else "every offset"),
+           "samples": [events[0], events[len(events) // 2], events[-1]], "outcomes": outs, "seeds": [len(s) for s in seeds],
+           "trace_events_validated": len(events), "trace_accepted": bool(accepted and not faults), "max_ms": max(e.get("ms", 0) for e in events),
+           "max_single_allocation": max(e.get("maxalloc", 0) for e in events)}
+    cov["known_findings_observed"] = known_findings(pid, ez)
+    vlib.write_evidence(pid, tier, "exploration", cov, time.time() - t0, nviol,
+                        ["sensors: ASan/UBSan, replaced operator new (largest request, budget), alarm(); the specification fixes the corruption space and the two admissible outcomes"])
+    log("[%s] %s: %d damaged files loaded (%s), trace %s by TLC, %.0fs" % (pid, tier, len(events), outs, "accepted" if accepted and not faults else "REJECTED", time.time() - t0))
+    return 1 if nviol else 0
+
 SAN_ENV = {"ASAN_OPTIONS": "detect_leaks=0:alloc_dealloc_mismatch=1:abort_on_error=1:detect_stack_use_after_return=0",
            "UBSAN_OPTIONS": "print_stacktrace=1:halt_on_error=1"}
 def run_memsafe(pid, tier, t0):
@@ -331,6 +413,7 @@ def run_format(pid, tier, t0):
         "rates in generated files come from the exact-rate table; the two multi-word reserved header fields are zero"])
 
 CHECKS = {
+    "C16": run_corrupt,
     "C02": run_format, "C12": run_format,
     "C15": run_faults,
     "C13": run_memsafe,
